@@ -1,5 +1,6 @@
 import MirVerif.Lemmas.AbiX64Run
 import MirVerif.Lemmas.AbiX64Spec
+import MirVerif.Lemmas.AbiX64Cache
 /-!
 # Property C05 — calls from MIR code to native functions follow the x86-64 System V ABI
 
@@ -176,6 +177,38 @@ theorem genRes_meets_sysv (rs : List ResTy) (l : List RLoc) (h : sysvRes rs = so
 theorem ffRes_eq_genRes (rs : List ResTy) (l : List RLoc) (h : sysvRes rs = some l) : ffRes rs = genRes rs := by
   rw [ffRes_meets_sysv rs l h, genRes_meets_sysv rs l h]
 
+/-! ## the interpreter's trampoline cache: one trampoline per signature, whatever was called before -/
+
+/-- **cache key**: `ff_interface_eq` accepts two signatures exactly when they are the same signature
+(result types at *every* position, every argument type, every block size, the number of named
+parameters) — the key is injective on signatures. -/
+theorem ffKeyEq_iff (s1 s2 : Sig) : ffKeyEq s1 s2 = true ↔ s1 = s2 := by
+  obtain ⟨r1, a1, n1⟩ := s1
+  obtain ⟨r2, a2, n2⟩ := s2
+  simp only [ffKeyEq, Bool.and_eq_true, beq_iff_eq, argsKeyEq_iff, Sig.mk.injEq]
+  constructor
+  · rintro ⟨⟨⟨⟨_, _⟩, hn⟩, hr⟩, ha⟩
+    exact ⟨map_resCode_inj hr, ha, hn⟩
+  · rintro ⟨rfl, rfl, rfl⟩
+    exact ⟨⟨⟨⟨rfl, rfl⟩, rfl⟩, rfl⟩, rfl⟩
+
+/-- whatever calls were executed before in the context, the trampoline the cache hands out for a
+call is the one of the call's own signature -/
+theorem cacheLookup_own (hist : List Sig) (s : Sig) : cacheLookup ffKeyEq hist s = s := by
+  induction hist with
+  | nil => rfl
+  | cons t ts ih =>
+    simp only [cacheLookup]
+    split
+    · rename_i h; exact (ffKeyEq_iff t s).mp h
+    · exact ih
+
+/-- hence argument and result placement of a call do not depend on the call history -/
+theorem ff_cache_sound (cfg : Cfg) (hist : List Sig) (s : Sig) :
+    ffPlace cfg (cacheLookup ffKeyEq hist s).args = ffPlace cfg s.args ∧
+    ffRes (cacheLookup ffKeyEq hist s).res = ffRes s.res := by
+  rw [cacheLookup_own]; exact ⟨rfl, rfl⟩
+
 /-! ## narrowing of integer parameters and results -/
 
 /-- two's-complement value of a 64-bit register image -/
@@ -225,6 +258,14 @@ example : sysvRes [.d, .d, .d] = none := by decide
 
 example : passInt .i8 0x1234567890abcd80 = 0xffffffffffffff80 ∧ passInt .u16 0xffffffffffff8001 = 0x8001 := by
   decide
+
+/-- related signatures differing in one later result, one block size, or only the split between named
+and variadic arguments are told apart by the key -/
+example : ffKeyEq ⟨[.i64, .i64], [.i32], 1⟩ ⟨[.i64, .d], [.i32], 1⟩ = false ∧
+    ffKeyEq ⟨[], [.blk .b1 9], 1⟩ ⟨[], [.blk .b1 12], 1⟩ = false ∧
+    ffKeyEq ⟨[.d], [.i64, .d], 2⟩ ⟨[.d], [.i64, .d], 1⟩ = false ∧
+    cacheLookup ffKeyEq [⟨[.i64, .i64], [.i32], 1⟩, ⟨[.i64, .d], [.i32], 1⟩] ⟨[.i64, .d], [.i32], 1⟩
+      = ⟨[.i64, .d], [.i32], 1⟩ := by decide
 
 example : ∃ sp entry, entry % 16 = 8 ∧ ffFrame sp + 16 ≤ entry := ⟨24, 1000, by decide, by decide⟩
 
